@@ -39,27 +39,98 @@ def escapes(g, acquire, release):
     return out
 
 
+def _flag_stores(node_or_list):
+    body = node_or_list if isinstance(node_or_list, list) else [node_or_list]
+    out = []
+    for st in body:
+        for n in ast.walk(st):
+            if isinstance(n, ast.Assign) and text(n.targets[0]) == FLAG:
+                out.append(n)
+    return out
+
+
+def _kind(store):
+    return 'on' if '__parseRaising' in text(store.value) else 'off'
+
+
+def switch_methods(m, cls='CSSParser'):
+    """{method name: summary} for the methods of the parser class that write the global
+    error mode.  A summary maps a constant first argument (or None = any call) to the set of
+    store kinds the call performs: {'on'}, {'off'} or both."""
+    out = {}
+    for q, fn in m.functions():
+        if not q.startswith(cls + '.') or q.count('.') != 1:
+            continue
+        stores = _flag_stores(fn)
+        if not stores:
+            continue
+        params = [a.arg for a in fn.args.args][1:]
+        summ = {None: {_kind(s) for s in stores}}
+        if params:
+            for st in fn.body:
+                if isinstance(st, ast.If) and isinstance(st.test, ast.Name) and st.test.id == params[0]:
+                    inside = _flag_stores(st.body) + _flag_stores(st.orelse)
+                    if len(inside) == len(stores):
+                        summ[True] = {_kind(s) for s in _flag_stores(st.body)}
+                        summ[False] = {_kind(s) for s in _flag_stores(st.orelse)}
+        out[fn.name] = (fn, summ)
+    return out
+
+
+def switch_effect(switches, call):
+    """'on' / 'off' / None for a call `self.<switch>(...)`; a method that does both is not a switch."""
+    cn = call_name(call)
+    if not cn.startswith('self.'):
+        return None
+    name = cn[5:]
+    if name not in switches:
+        return None
+    fn, summ = switches[name]
+    arg = const(call.args[0]) if call.args else None
+    kinds = summ.get(arg if isinstance(arg, bool) else None, summ[None])
+    if kinds == {'on'}:
+        return 'on'
+    if kinds == {'off'}:
+        return 'off'
+    return None
+
+
+def pure_switches(switches):
+    """Private methods all of whose calls either switch on or switch off (never both in one call)."""
+    out = set()
+    for name, (fn, summ) in switches.items():
+        per_call = [v for k, v in summ.items() if k is not None] or [summ[None]]
+        if name.startswith('_') and all(len(v) <= 1 for v in per_call):
+            out.add(name)
+    return out
+
+
 def r12a(chk, rid='R12.a'):
-    chk.rule(rid, 'global error-mode pairing in CSSParser: every function that switches cssutils.log.raiseExceptions to the parse mode switches it back on every exit, exceptional exits included (any call may raise: decode errors, fetcher faults, raising parsers); the value written back was read from the global at the start of the same call, not at construction time')
+    chk.rule(rid, 'global error-mode pairing in CSSParser: every function that switches cssutils.log.raiseExceptions to the parse mode - by storing it or by calling a private method whose only effect on it is that store - switches it back on every exit, exceptional exits included (any call may raise: decode errors, fetcher faults, raising parsers); the value written back was read from the global at the start of the same call, not at construction time')
     m = chk.repo.mod(PARSE)
+    switches = switch_methods(m)
+    pure = pure_switches(switches)
+    if not any('on' in summ[None] for fn, summ in switches.values()) or not any('off' in summ[None] for fn, summ in switches.values()):
+        raise AnalysisError('CSSParser: no method stores the parse mode / restores the mode')
     n_fn = 0
     for q, fn in m.functions():
         if not q.startswith('CSSParser.') or q.count('.') != 1:
             continue
+        if fn.name in pure:
+            continue  # the obligation is carried by its callers
         g = cfgmod.CFG(fn, may_raise=_has_call)
-        on = [n for n in g.nodes if any(call_name(c) == 'self.__parseSetting' and c.args and const(c.args[0]) is True for c in cfgmod.calls_at(n))]
+        on = [n for n in g.nodes if any(switch_effect(switches, c) == 'on' for c in cfgmod.calls_at(n))]
         direct = [n for n in g.nodes if n.kind == 'stmt' and isinstance(n.stmt, ast.Assign) and text(n.stmt.targets[0]) == FLAG]
-        if q == 'CSSParser.__parseSetting':
-            continue
         if not on and not direct:
             continue
         n_fn += 1
-        if direct and not on:
-            # a function that writes the flag itself: the restoring store is the release
+        on = on + [n for n in direct if _kind(n.stmt) == 'on']
+        if not on and direct:
+            # a function that saves and writes the flag itself: the restoring store is the release
             on = [direct[0]]
             off = lambda n, d=direct: n in d[1:]  # noqa: E731
         else:
-            off = lambda n: any(call_name(c) == 'self.__parseSetting' and c.args and const(c.args[0]) is False for c in cfgmod.calls_at(n))  # noqa: E731
+            off = lambda n, d=direct: any(switch_effect(switches, c) == 'off' for c in cfgmod.calls_at(n)) or (n in d and _kind(n.stmt) == 'off')  # noqa: E731
         esc = escapes(g, on, off)
         # a raise *at* the acquire statement itself happens before the switch: ignore
         if not esc:
@@ -74,12 +145,11 @@ def r12a(chk, rid='R12.a'):
     if n_fn < 2:
         raise AnalysisError(f'only {n_fn} mode-switching parse functions found')
     # the value written back
-    ps = m.get('CSSParser.__parseSetting')
-    stores = [n for n in ast.walk(ps) if isinstance(n, ast.Assign) and text(n.targets[0]) == FLAG]
-    restore_vals = [text(n.value) for n in stores if '__parseRaising' not in text(n.value)]
-    if not restore_vals:
-        raise AnalysisError('__parseSetting: restoring store not found')
-    for v in restore_vals:
+    restore = [(name, s) for name, (fn, summ) in switches.items() for s in _flag_stores(fn) if _kind(s) == 'off']
+    if not restore:
+        raise AnalysisError('CSSParser: restoring store not found')
+    for name, st in restore:
+        v = text(st.value)
         # where is v defined from a read of the global?
         defs = []
         for q, fn in m.functions():
@@ -87,7 +157,7 @@ def r12a(chk, rid='R12.a'):
                 if isinstance(n, ast.Assign) and text(n.targets[0]) == v and text(n.value) == FLAG and m.enclosing_def(n) is fn:
                     defs.append(q)
         per_call = [d for d in defs if d != 'CSSParser.__init__']
-        chk.ob(rid, PARSE, 'CSSParser.__parseSetting', f'restored value `{v}` is read from the global at the start of the parse call',
+        chk.ob(rid, PARSE, f'CSSParser.{name}', f'restored value `{v}` is read from the global at the start of the parse call',
                bool(per_call), f'`{v}` is only captured in {defs or "no function"}: a mode set after the parser was constructed is overwritten by every parse call')
 
 
@@ -241,6 +311,8 @@ def r12c(chk, rid='R12.c'):
                 continue  # Preferences methods writing self, not the global
             n += 1
             ok = (rel, q) in STATE_WRITERS[st]
+            if st == 'raiseExceptions' and rel == PARSE and q.startswith('CSSParser.') and q.count('.') == 1:
+                ok = True  # every CSSParser method that writes the flag is subject to the pairing rule R12.a
             chk.ob(rid, rel, q, f'writes {st}: {text(node)[:70]}', ok,
                    STATE_WRITERS[st].get((rel, q), f'{st} is process-wide state; this function is not one of its sanctioned writers - results of later calls depend on whether it ran'))
     if n < 12:
@@ -271,8 +343,65 @@ def r12c(chk, rid='R12.c'):
                     if isinstance(t, ast.Name) and not t.id.startswith('__'):
                         if isinstance(st.value, ast.Call) and not (call_name(st.value).endswith(('Tokenizer', 'ErrorHandler', 'CSSSerializer', 'Profiles')) or call_name(st.value) in ('dict', 'list', 'set')):
                             continue
+                        if (rel, t.id) not in MUTABLE_OK:
+                            how = _mutable_use(chk.repo, m, t.id)
+                            if how is None:
+                                chk.ob(rid, rel, '<module>', f'module-level container `{t.id}` is only read (subscript, get, in, iteration)', True, '', trivial=True)
+                                continue
+                        else:
+                            how = ''
                         chk.ob(rid, rel, '<module>', f'module-level mutable `{t.id}`', (rel, t.id) in MUTABLE_OK,
-                               'a new process-wide mutable object: results may depend on earlier calls')
+                               f'a new process-wide mutable object ({how}): results may depend on earlier calls')
+
+
+READ_METHODS = {'get', 'items', 'keys', 'values', 'copy', 'index', 'count', '__contains__', '__getitem__'}
+READ_FUNCS = {'len', 'sorted', 'list', 'tuple', 'set', 'dict', 'frozenset', 'any', 'all', 'min', 'max', 'sum', 'enumerate', 'zip', 'reversed', 'iter', 'isinstance', 'repr', 'str', 'bool'}
+
+
+def _mutable_use(repo, m, name):
+    """None when every use of the module-level container `name` is a read; else the first
+    use (as text) that writes it or lets it escape."""
+    def classify(mod, ref):
+        p = mod.parents.get(ref)
+        if isinstance(p, ast.Subscript) and p.value is ref:
+            return None if isinstance(p.ctx, ast.Load) else f'`{text(mod.enclosing_stmt(p))[:60]}` stores into it'
+        if isinstance(p, ast.Attribute) and p.value is ref:
+            pp = mod.parents.get(p)
+            if isinstance(pp, ast.Call) and pp.func is p and p.attr in READ_METHODS:
+                return None
+            return f'`{text(p)}` may modify it'
+        if isinstance(p, ast.Compare) and ref in p.comparators and all(isinstance(o, (ast.In, ast.NotIn)) for o in p.ops):
+            return None
+        if isinstance(p, (ast.For, ast.comprehension)) and p.iter is ref:
+            return None
+        if isinstance(p, ast.Call) and ref in p.args and isinstance(p.func, ast.Name) and p.func.id in READ_FUNCS:
+            return None
+        if isinstance(p, ast.Assign) and ref in p.targets and mod is m and mod.parents.get(p) is mod.tree:
+            return None  # the definition itself
+        return f'`{text(mod.enclosing_stmt(ref))[:60]}` lets it escape'
+
+    for ref in ast.walk(m.tree):
+        if isinstance(ref, ast.Name) and ref.id == name:
+            fn = m.enclosing_def(ref)
+            # a parameter or local of the same name shadows it
+            if fn is not None and not isinstance(fn, ast.Lambda) and any(a.arg == name for a in fn.args.args + fn.args.kwonlyargs):
+                continue
+            r = classify(m, ref)
+            if r:
+                return r
+        if isinstance(ref, ast.Global) and name in ref.names:
+            return 'rebound through `global`'
+    for rel2, m2 in repo.modules.items():
+        if m2 is m:
+            continue
+        for ref in ast.walk(m2.tree):
+            if isinstance(ref, ast.ImportFrom) and any(a.name == name for a in ref.names) and ref.module and m.rel[:-3].replace('/', '.').endswith(ref.module.lstrip('.')):
+                return f'imported by {rel2}'
+            if isinstance(ref, ast.Attribute) and ref.attr == name and isinstance(ref.value, (ast.Name, ast.Attribute)) and text(ref.value).split('.')[-1] == m.rel.rsplit('/', 1)[-1][:-3]:
+                r = classify(m2, ref)
+                if r:
+                    return r + f' ({rel2})'
+    return None
 
 
 def r12d(chk, rid='R12.d'):
